@@ -187,6 +187,7 @@ Proof.
         destruct (y_rvs h e xr) eqn:Exr; [|discriminate]. inversion Ees; subst.
         eapply y_rvs_svals; eauto. }
       rewrite (append_inplace_vals _ _ _ _ _ Hr). rewrite Evs. reflexivity.
+  - (* EAppendSlice *) rewrite <- !rv_sound. unfold bind. dm.
   - rewrite <- rvs_sound. unfold bind. dm.
   - rewrite <- rv_sound. unfold bind. dm.
   - rewrite <- !rv_sound. unfold bind. dm.
